@@ -50,6 +50,7 @@ type Pkg struct {
 	Rules     *string `json:"rules,omitempty"` // .terraformignore content
 	Commit    string  `json:"commit,omitempty"`
 	BlankMeta bool    `json:"blank_meta,omitempty"` // the fetcher returns a non-nil PackageMeta with all fields omitted
+	RulesLink bool    `json:"rules_link,omitempty"` // .terraformignore is delivered as a link to the regular file rules.ign in the package
 	Msg       string  `json:"msg,omitempty"`
 	Mods      []Mod   `json:"mods"`
 }
@@ -110,6 +111,7 @@ type Variant struct {
 	PermSalt  uint64 `json:"perm_salt"` // changes the order in which finders report deps
 	SchedSeed uint64 `json:"sched_seed"`
 	Shape     string `json:"shape,omitempty"`
+	Tracer    string `json:"tracer,omitempty"` // "" = recording tracer in the context; "none" = no tracer; "nodiag" = tracer without a Diagnostics callback
 }
 
 type Scenario struct {
@@ -127,6 +129,7 @@ type Scenario struct {
 	PipeCap   int          `json:"pipe_cap,omitempty"`
 	PipeBreak int          `json:"pipe_break,omitempty"` // ship: the pipe breaks after this many bytes (0: never)
 	Corrupt   []Corruption `json:"corrupt,omitempty"`
+	LinkRoots bool         `json:"link_roots,omitempty"` // post: the bundle is also re-opened, and the archive extracted, by way of a symlink to the directory
 	OtherPack bool         `json:"other_pack,omitempty"` // a further task packs another tree with its own rule file (slug.Pack) while the build runs: both consume the same ignore-rule machinery
 	CloseTask bool         `json:"close_task,omitempty"` // Close is issued by task 0 after its Adds instead of after all tasks
 	Tapes     [][]int      `json:"tapes,omitempty"`      // pinned schedule tapes, one per scheduler in creation order (variants, then ship)
